@@ -34,7 +34,7 @@ META = {
              "point), of the LAMMPS polling loop (any schedule gives the stop-rule prefix of the un-chunked trajectory, frame k paired with box k "
              "and config index k; refutation witness for the old pop() pairing), of the CP2K loop (two readers, min(len) pairing), of the GROMACS "
              "TRR polling state machine (any sequence of observed file sizes; refutation witness for the double velocity negation with "
-             "reverse=True), of the ASE/TurtleMD/plug-in subcycle loop, of 'non-zero exit without a stop never returns normally', of "
+             "reverse=True), of the ASE/TurtleMD/plug-in subcycle loop (also with the calculate_order call site and its fall-back to the configuration file spelled out), of 'non-zero exit without a stop never returns normally', of "
              "backward-retraces-forward for abstract reversible dynamics, and of process groups (killpg stops every process of the group, hence the "
              "program a launcher leading the group has started; signalling the leader alone does not: C12_signal_leader_only_refuted). The models are tied to /repo by running the real engine classes against "
              "fake lmp/cp2k/gmx executables (real file formats, synchronised arrival schedules incl. half-written frames, SIGTERM, exit codes, "
@@ -44,9 +44,29 @@ META = {
              "that runs the fake program as ITS child, in the foreground or in the background + wait, without exec, and passes the exit status "
              "on), under hand-shake schedules, failing programs and as a free-running 120-frame program with an early crossing; after propagate "
              "has returned or raised, no process started for that propagation (direct child, launcher, program behind the launcher, re-parented "
-             "or not) may be alive after a grace period of 3 s and nothing may write into the exe directory any more."),
+             "or not) may be alive after a grace period of 3 s and nothing may write into the exe directory any more. Clause 'the k-th frame's stored "
+             "order parameter equals the one recomputed from the k-th configuration it references': every stored frame is extracted from the file + "
+             "index it references and its order parameter is recomputed twice, by the engine's own calculate_order on the extracted file and by "
+             "the order function applied directly to that frame's positions, velocities (times -1 for vel_rev) and box (a frame whose file has no "
+             "box entry has the engine's own box), i.e. also without EngineBase.calculate_order's 'an argument is None -> re-read system.config[0]' "
+             "route. The phase point handed to propagate is, in part of the scenarios of every engine whose format allows it, a configuration file "
+             "WITHOUT the optional entries: xyz comment line without 'Box:' (TurtleMD takes the box from [engine.box], CP2K from its input template), "
+             "xyz lines without velocity columns, .g96 without VELOCITY block, ASE Atoms without momenta and/or without cell (velocities then read "
+             "as zeros); exhaustively combined with direction, vel_rev of the given point, subcycles and the place of the crossing for the "
+             "in-process engines, with every order function and both directions for CP2K and GROMACS."),
     "note": ("Engines covered by the correspondence: LAMMPS, CP2K, GROMACS (real engine classes against fake lmp/cp2k/gmx executables), ASE, "
-             "TurtleMD, plug-in (in-process); AMS is not covered. Trusted: Coq kernel; extraction + OCaml driver; the fake programs stand for "
+             "TurtleMD, plug-in (in-process); AMS is not covered. Start files without optional entries: lammpstrj has none (box bounds and the "
+             "vx vy vz columns are required by read_lammpstrj / read_dump), a .g96 start file keeps its BOX block (GROMACS needs it), the "
+             "lattice plug-in's one-number format has none. In the polling models such a start file is just another initial state (zero "
+             "velocities / the engine's box); what it can change is which data EngineBase.calculate_order uses, so that function's 'all three "
+             "overrides or the file' rule is modelled (PollM.calculate_order_args; C12_calculate_order_overrides, "
+             "C12_calculate_order_falls_back_to_file), the in-process loop is restated with its call site spelled out "
+             "(inproc_loop_args; C12_inproc_call_site_own_state: with a box override that is never None every frame stores the order "
+             "parameter of its own state for EVERY initial file; C12_inproc_box_from_initial_file_refuted: a box override read from an initial "
+             "file without box entry stores the initial configuration's order parameter in every frame and misses the crossing), the ASE and "
+             "TurtleMD scenarios are compared with inproc_loop_args (override = own box, file box absent in the no-box scenarios), and the real "
+             "EngineBase.calculate_order is compared with calculate_order_args for all 8 subsets of overrides x vel_rev x file with/without "
+             "box entry (coverage.calculate_order_probe). Trusted: Coq kernel; extraction + OCaml driver; the fake programs stand for "
              "the real ones (file format and timing contract only); kernel-level process/signal behaviour is observed (process table, SIGTERM "
              "marker), not proved. The processes of one propagation are identified by the control-file path in their environment "
              "(/proc/<pid>/environ: inherited through the launcher, independent of parent and process group), so a program that outlives "
@@ -248,6 +268,28 @@ def gen_external(H, engine, rng, tier, wdroot):
                            vel_rev_in=rng.random() < 0.3, shuffle_ids=rng.random() < 0.5,
                            cut=rng.choice(["line", "midline"]),
                            back_from=(rng.randrange(0, kc + 1) if ml > kc else None))
+    # ---- phase points whose configuration FILE lacks the optional entries of its format: no
+    #      "Box:" in the comment line of an xyz file (CP2K then takes the box from its input
+    #      template), no velocity columns (xyz) / no VELOCITY block (g96): such velocities read
+    #      as zeros.  lammpstrj has no optional entries (box and the vx vy vz columns are
+    #      required by read_lammpstrj / read_dump).  Every order function, both directions.
+    for oi_, opt in enumerate(OPTIONAL.get(engine, [])):
+        for sub in ((1, 2) if tier == "quick" else (1, 2, 3)):
+            for oi, order in enumerate(ORDERS):
+                for reverse in (False, True):
+                    c = base_case(engine, rng)
+                    c["subcycles"] = sub
+                    c["order"] = order
+                    c.update(opt)
+                    if opt.get("omit_vel"):
+                        c["vel"] = [[0.0, 0.0, 0.0] for _ in c["pos"]]
+                        c["accel"] = [rng.choice([0.25, -0.25, 0.5, -0.5]), 0.0, 0.0]
+                    mkbox(c, False, False)
+                    kc = rng.choice([1, 2, 3])
+                    for ml in (kc + 1, kc + 2):
+                        finish(c, kc, ml, random_schedule(rng, ml + 1, nstream), reverse=reverse,
+                               vel_rev_in=(oi + sub + oi_) % 3 == 0, cut=rng.choice(["line", "midline"]),
+                               back_from=(rng.randrange(0, kc + 1) if (ml > kc and oi % 2 == 0) else None))
     # ---- failures: non-zero exit after W frames, before any output
     nfail = 30 if tier == "quick" else 200
     for i in range(nfail):
@@ -339,6 +381,22 @@ def gen_external(H, engine, rng, tier, wdroot):
     return cases
 
 
+# optional entries of the start configuration's file format, per engine (see gen_external / gen_inproc)
+OPTIONAL = {
+    "cp2k": [{"omit_box": True}, {"omit_vel": True}, {"omit_box": True, "omit_vel": True}],
+    "gromacs": [{"omit_vel": True}],
+    "turtlemd": [{}, {"omit_box": True}, {"omit_vel": True}, {"omit_box": True, "omit_vel": True}],
+    "ase": [{}, {"omit_vel": True}, {"no_cell": True}, {"omit_vel": True, "no_cell": True}],
+    "plugin": [{}],
+}
+
+
+def start_file(case):
+    """Label of the start configuration's file variant (input distribution)."""
+    tags = [t for t, k in (("no-box", "omit_box"), ("no-velocities", "omit_vel"), ("no-cell", "no_cell")) if case.get(k)]
+    return "+".join(tags) if tags else "complete"
+
+
 def l3_witness(H, wdroot):
     """Lead L3 replayed on the implementation: GROMACS, reverse=True, order = velocity."""
     return {"engine": "gromacs", "pos": [[1.0, 0.0, 0.5], [5.0, 0.0, 0.5]], "vel": [[0.5, 0.0, 0.0], [0.0, 0.0, 0.0]],
@@ -390,31 +448,57 @@ def inproc_inputs(H, case, ref):
 def gen_inproc(H, I, engine, rng, tier, wdroot):
     cases = []
     n = {"quick": 150, "thorough": 1200}[tier]
+    variants = OPTIONAL[engine]
+    plan = []
+    # exhaustive small scope: every variant of the start configuration's file (complete / without
+    # the "Box:" header entry / without velocities / neither; ASE: without momenta / without a
+    # cell) x direction x vel_rev of the given point x subcycles x place of the crossing
+    if len(variants) > 1:
+        for opt in variants:
+            for reverse in (False, True):
+                for vri in (False, True):
+                    for sub in (1, 2):
+                        for kc in (1, 2, None):
+                            plan.append((len(plan), opt, sub, 3, reverse, vri, kc))
+    # seeded random: triples of consecutive cases share a file variant and cover the subcycles / orders
     for i in range(n):
-        sub = 1 + i % 3 if engine != "plugin" else 1
-        ml = rng.randrange(1, 8)
+        plan.append((i, variants[(i // 3) % len(variants)], None, None, None, None, "random"))
+    for i, opt, sub, ml, reverse, vri, kc in plan:
+        if kc == "random":
+            sub = 1 + i % 3 if engine != "plugin" else 1
+            ml = rng.randrange(1, 8)
+            reverse, vri = rng.random() < 0.4, rng.random() < 0.25
         c = {"engine": engine, "subcycles": sub, "maxlen": ml, "order": IN_ORDERS[engine][i % len(IN_ORDERS[engine])],
-             "reverse": rng.random() < 0.4, "vel_rev_in": rng.random() < 0.25, "rseed": rng.randrange(1, 10 ** 6)}
+             "reverse": reverse, "vel_rev_in": vri, "rseed": rng.randrange(1, 10 ** 6)}
+        c.update(opt)
         if engine == "ase":
             c.update(pos=[[dy(rng, 1, 3), 0.0, 0.0], [dy(rng, 4, 6), dy(rng, 0, 1), 0.0]],
                      vel=[[rng.choice([0.0625, -0.0625, 0.03125, 0.125]), 0.0, 0.0], [rng.choice([0.0, -0.0625]), 0.0, 0.0]],
                      cell=[20.0, 20.0, 20.0], kspring=rng.choice([0.0, 0.25, 1.0]), timestep=rng.choice([0.5, 1.0, 2.0]))
+            if c.get("no_cell"):
+                c["cell"] = [0.0, 0.0, 0.0]         # Atoms without a cell: cell.diagonal() is all zeros
+            if c.get("omit_vel"):
+                c["vel"] = [[0.0, 0.0, 0.0], [0.0, 0.0, 0.0]]
+                c["kspring"] = rng.choice([0.25, 1.0])       # at rest and force-free nothing would move
         elif engine == "turtlemd":
             c.update(pos=[[dy(rng, -1, 1, 8), 0.0, 0.0]], vel=[[dy(rng, -1, 1, 8), 0.0, 0.0]], a=1.0, b=2.0, c=0.0,
                      gamma=rng.choice([0.3, 1.0]), beta=rng.choice([4.0, 14.0]), timestep=rng.choice([0.025, 0.05]))
+            if c.get("omit_vel"):
+                c["vel"] = [[0.0, 0.0, 0.0]]
         else:
             c.update(x0=rng.randrange(-2, 5), wall=-4)
         c["interfaces"] = [-1e9, 1e9]
         ref = reference(I, c)
         own = inproc_inputs(H, c, ref)["own"]
-        kc = rng.choice([None, 1, 2, 3, 4, ml - 1, ml])
+        if kc == "random":
+            kc = rng.choice([None, 1, 2, 3, 4, ml - 1, ml])
         c["interfaces"] = choose_interfaces(rng, own, kc)
         if engine == "plugin":
             lo = min(own) - 0.5 if kc is None else own[0] - rng.choice([0.5, 1.5, 2.5])
             c["interfaces"] = [lo, own[0] + rng.choice([0.5, 1.5, 2.5, 40.5])]
         if engine == "ase" and rng.random() < 0.5:
             c["back_from"] = rng.randrange(0, ml)
-        c["wd"] = os.path.join(wdroot, f"{engine}_{i}")
+        c["wd"] = os.path.join(wdroot, f"{engine}_{len(cases)}")
         cases.append(c)
     return cases
 
@@ -518,6 +602,10 @@ def oracle(H, case, res, own, frames):
                     if eng == "lammps" and case.get("box_rate") and f["idx"] == k else "")
             errs.append((cls, f"frame {k}: stored order {f['order']!r} != {f['recomputed']!r} recomputed from the frame it references "
                               f"({f['file']}[{f['idx']}], vel_rev={f['vel_rev']}){hint}"))
+        elif "recomputed_direct" in f and not close(f["order"], f["recomputed_direct"], tol):
+            errs.append((None, f"frame {k}: stored order {f['order']!r} != {f['recomputed_direct']!r}, the order function applied to the "
+                               f"positions, velocities (vel_rev={f['vel_rev']}) and box of the frame it references ({f['file']}[{f['idx']}]"
+                               f"{'' if f.get('has_box', True) else ', no box entry in the file: the box of the engine'})"))
         if k < len(frames):
             p, v, b = expected_state(H, case, k, frames)
             if not (same_arrays(f["pos"], p, tols) and same_arrays(f["vel"], v, tols)
@@ -621,6 +709,7 @@ def _run(ctx, runner, H, I, sysharness, rng, wdroot):
         cases += gen_inproc(H, I, eng, rng, ctx.tier, wdroot)
     results = sysharness.run_many(H.run_case, cases, jobs=14, timeout=300)
     evaluate(ctx, runner, H, I, cases, results)
+    calc_order_probe(ctx, runner, H, I, sysharness, wdroot)
     ctx.cov["rule"] = ("one evaluation = one propagate() call of a real engine class (plus the opposite-direction call for retrace cases), "
                        "compared with the extracted model and judged by the oracle; distinct = distinct case dicts; every case has a "
                        "non-trivial trajectory (>= 1 frame) and interfaces chosen from its own order parameters")
@@ -647,6 +736,8 @@ def evaluate(ctx, runner, H, I, cases, results):
         eng = case["engine"]
         ctx.dist(f"{eng}:{case.get('mode', 'sync') if eng in H.EXTERNAL else 'inproc'}")
         ctx.dist(f"{eng}:reverse={int(bool(case.get('reverse')))}")
+        if eng in OPTIONAL and eng != "plugin":
+            ctx.dist(f"{eng}:start-file={start_file(case)}")
         if eng in H.EXTERNAL:
             ctx.dist(f"{eng}:command={'launcher-' + case['launcher'] if case.get('launcher') else 'program'}")
         if tag != "ok":
@@ -712,7 +803,15 @@ def evaluate(ctx, runner, H, I, cases, results):
                 kinds.append("spec")
         else:
             head = f"{mi['rv']} {mi['left']} {mi['right']} {case['maxlen']}"
-            lines.append(f"inproc 1 {head} {case['subcycles']} {H.enc_list(mi['traj'])} {H.enc_list(mi['ord'])}")
+            if eng in ("turtlemd", "ase"):
+                # the loop with its calculate_order call site spelled out (PollM.inproc_loop_args): the
+                # overrides are the current state's, the box override is never None (boxmode 1, as in
+                # /repo); the file the System points to is the initial configuration (state 0), whose
+                # box entry is absent in the "no-box" scenarios
+                fbox = "N" if case.get("omit_box") else "0"
+                lines.append(f"inprocargs 1 {head} {case['subcycles']} 1 0 1 {fbox} 0 {H.enc_list(mi['traj'])} {H.enc_list(mi['ord'])}")
+            else:
+                lines.append(f"inproc 1 {head} {case['subcycles']} {H.enc_list(mi['traj'])} {H.enc_list(mi['ord'])}")
             kinds.append("model")
     outs = runner.run(lines)
     bad = 0
@@ -749,13 +848,51 @@ def evaluate(ctx, runner, H, I, cases, results):
                                          "return without stop / raise), program killed or exited"}
 
 
+def calc_order_probe(ctx, runner, H, I, sysharness, wdroot):
+    """EngineBase.calculate_order itself against PollM.calculate_order_args: all 8 ways of giving /
+    not giving xyz, vel, box x vel_rev x a configuration file with / without box entry."""
+    combos = I.calc_combos()
+    case = {"engine": "calcorder", "combos": combos, "wd": os.path.join(wdroot, "calcorder")}
+    (tag, res), = sysharness.run_many(H.run_case, [case], jobs=1, timeout=120)
+    if tag != "ok":
+        ctx.violation(f"harness failure in the calculate_order probe: {str(res)[:300]}", {"error": str(res)[-2000:]}, False)
+        return
+    P = I.CALC_PROBE
+    orderf = H.make_order(P["order"])
+    pos = {0: P["given"]["xyz"], 1: P["file"]["xyz"]}
+    vel = {1: P["given"]["vel"], 2: P["file"]["vel"]}
+    box = {0: P["given"]["box"], 1: P["file"]["box"], 2: P["sysbox"]}
+    ent = {(p, sg * v, b): H.order_value(orderf, [[pos[p], 0.0, 0.0]], [[sg * vel[v], 0.0, 0.0]], [box[b], 1.0, 1.0])
+           for p in pos for v in vel for sg in (1, -1) for b in box}
+    q = H.quantiser(list(ent.values()) + res["values"])
+    ordt = H.enc_list([f"{p}:{v}:{b}:{q(o)}" for (p, v, b), o in ent.items()])
+    lines = [f"calcorder {int(c['rv'])} {'0' if c['xyz'] else 'N'} {'1' if c['vel'] else 'N'} {'0' if c['box'] else 'N'} "
+             f"1 2 {'1' if c['file_box'] else 'N'} 2 {ordt}" for c in combos]
+    outs = runner.run(lines)
+    bad = []
+    for c, val, line, ans in zip(combos, res["values"], lines, outs):
+        ctx.count("calcorder " + json.dumps(c, sort_keys=True), nontrivial=True)
+        ctx.dist(f"calculate_order:overrides={'all' if (c['xyz'] and c['vel'] and c['box']) else 'partial/none'}")
+        if q(val) != ans.strip():
+            bad.append((c, val, ans, line))
+    for c, val, ans, line in bad[:2]:
+        ctx.violation(f"correspondence model/implementation broken for EngineBase.calculate_order: overrides {c} give {val!r} "
+                      f"(= {q(val)} on the model's grid), model {ans!r}",
+                      {"correspondence": "c12 runner (calculate_order_args) vs EngineBase.calculate_order", "combo": c,
+                       "impl": val, "model": ans, "request": line, "probe": P}, False)
+    ctx.cov["calculate_order_probe"] = {"compared": len(combos), "disagreements": len(bad),
+                                        "what": "EngineBase.calculate_order (TurtleMD xyz reader) with every subset of the overrides "
+                                                "xyz/vel/box given, vel_rev on/off, configuration file with/without 'Box:' entry"}
+
+
 def slim(res):
     out = {}
     for key, obs in res.items():
         if not isinstance(obs, dict) or "frames" not in obs:
             continue
         o = {k: v for k, v in obs.items() if k not in ("frames", "children")}
-        o["frames"] = [{k: v for k, v in f.items() if k in ("order", "recomputed", "idx", "vel_rev", "file", "recompute_error")}
+        o["frames"] = [{k: v for k, v in f.items() if k in ("order", "recomputed", "recomputed_direct", "has_box", "idx", "vel_rev", "file",
+                                                            "recompute_error")}
                        for f in obs["frames"]]
         out[key] = o
     return out
